@@ -757,6 +757,10 @@ REAL_START = {
     'l': ('l', 320., 101325., {('l', 'Water'): 2.0, ('l', 'Ethanol'): 3.0}),
     'g': ('g', 420., 101325., {('g', 'Water'): 2.0, ('g', 'Ethanol'): 3.0}),
     'gl': (('g', 'l'), 355., 101325., {('g', 'Water'): 0.5, ('g', 'Ethanol'): 1.5, ('l', 'Water'): 1.5, ('l', 'Ethanol'): 1.5}),
+    # the same gas / liquid, the flows entered in the OTHER order than the chemicals of the package (added after seeded change C14_10: a
+    # mixture-level cache that remembers the order in which the first stream entered its flows)
+    'g-rev': ('g', 420., 101325., {('g', 'Ethanol'): 3.0, ('g', 'Water'): 2.0}),
+    'l-rev': ('l', 320., 101325., {('l', 'Ethanol'): 3.0, ('l', 'Water'): 2.0}),
 }
 
 
@@ -777,14 +781,14 @@ def twin_fresh(s, twin, ph=None):
     if ph is not None:
         f = tmo.Stream(None, thermo=twin, phase=ph, T=tc._T, P=tc._P)
         row = dict(W.rows_of(s))[ph]
-        for i, v in row.dct.items(): f._imol.data.dct[i] = v
+        for i, v in sorted(row.dct.items()): f._imol.data.dct[i] = v
     elif isinstance(s, tmo.MultiStream):
         f = tmo.MultiStream(None, thermo=twin, phases=s.phases, T=tc._T, P=tc._P)
         for (p_, sv), (_, fv) in zip(W.rows_of(s), W.rows_of(f)):
-            for i, v in sv.dct.items(): fv.dct[i] = v
+            for i, v in sorted(sv.dct.items()): fv.dct[i] = v
     else:
         f = tmo.Stream(None, thermo=twin, phase=s.phase, T=tc._T, P=tc._P)
-        for i, v in s._imol.data.dct.items(): f._imol.data.dct[i] = v
+        for i, v in sorted(s._imol.data.dct.items()): f._imol.data.dct[i] = v
     return f
 
 
@@ -886,6 +890,8 @@ REAL_QUICK = {
           ['r:H', 'thermo:PR', 'r:H', 'S+', 'fl'], ['r:H', 'vleVP', 'reduce', 'r:H'], ['r:H', 'vleTP', 'ph:l', 'r:H', 'H+']],
     'g': [['r:H', 'S+', 'P', 'fl', 'r:H'], ['r:S', 'H+', 'P', 'r:S'], ['r:H', 'vent', 'r:H'], ['r:H', 'vent:noH', 'T'], ['r:H', 'vleTP', 'r:H', 'S+'],
           ['r:H', 'mixvle:l', 'r:H'], ['r:Cn', 'h+', 'P', 'fl', 'r:Cn']],
+    'g-rev': [['r:H', 'r:S', 'r:Cn'], ['r:H', 'T', 'r:H', 'S+']],
+    'l-rev': [['r:H', 'r:S', 'r:Cn'], ['r:H', 'H+', 'r:H']],
     'gl': [['r:H', 'vr:g:H', 'H+', 'P', 'fl'], ['r:S', 'S+', 'P', 'fl'], ['r:H', 'h+', 'sc'], ['r:H', 'vleTP', 'r:H'], ['r:H', 'vr:l:H', 'vleVP', 'vr:l:H', 'vleHP'],
            ['r:H', 'vleHP', 'P', 'vleTV'], ['vr:l:V', 'ivol', 'vr:l:V'], ['r:H', 'setflowvol', 'T'], ['r:H', 'mixvle', 'vr:g:H', 'T'],
            ['r:H', 'lle', 'r:H'], ['r:H', 'vlle', 'vr:l:H'], ['r:H', 'thermo:PR', 'vr:g:H', 'H+', 'fl'], ['r:H', 'vleVP:1.0', 'reduce', 'r:H', 'T']],
